@@ -85,5 +85,5 @@ def to_program(name, ab, rules, chunks=None, collections=None):
     top = ab["call"]
     return {"name": name, "structs": [{"name": s["name"], "fields": conv_params(s["fields"])} for s in ab["structs"]],
             "stages": stages, "pipelines": pipes, "filetypes": ab["filetypes"],
-            "top": {"callee": top["callee"], "id": top["id"],
+            "top": {"callee": top["callee"], "id": top["id"], "mode": "none",
                     "args": [{"n": b["n"], "e": conv_exp(b["e"])} for b in top["binds"]]}}
